@@ -19,6 +19,7 @@ package config
 import (
 	"bytes"
 	"errors"
+	"fmt"
 	"io"
 
 	"github.com/drone/envsubst/v2"
@@ -63,7 +64,7 @@ func parseYAML(reader io.Reader, envUsageEnabled bool) (*RuleSet, error) {
 				"failed to read rule set").CausedBy(err)
 		}
 
-		content, err := envsubst.EvalEnv(stringx.ToString(raw))
+		content, err := evalEnv(stringx.ToString(raw))
 		if err != nil {
 			return nil, errorchain.NewWithMessage(heimdall.ErrConfiguration,
 				"failed to evaluate env variables in rule set").CausedBy(err)
@@ -91,6 +92,28 @@ func parseYAML(reader io.Reader, envUsageEnabled bool) (*RuleSet, error) {
 	}
 
 	return &ruleSet, nil
+}
+
+// evalEnv substitutes the references to environment variables. The underlying implementation panics on
+// some expressions (e.g. on a substring expression with a negative length, like ${FOO:1:-1}). Since rule
+// sets are loaded at run time, that must not end the process.
+func evalEnv(value string) (string, error) {
+	var (
+		result string
+		err    error
+	)
+
+	func() {
+		defer func() {
+			if rec := recover(); rec != nil {
+				err = fmt.Errorf("%v", rec) //nolint:err113
+			}
+		}()
+
+		result, err = envsubst.EvalEnv(value)
+	}()
+
+	return result, err
 }
 
 // hasOnlyStringKeys reports whether all mappings in the given value have string keys only. The yaml decoder
